@@ -168,7 +168,7 @@ def r2_heap_ownership(ctx, rule):
                             'the heap list is aliased; mutations through the alias cannot be tracked', node=par)
                     continue
                 # reads (bool tests, comparisons, iteration) are harmless
-    if not ctx.floor(rule, PQF, n_push, 2, 'heappush sites on p_queue'):
+    if not ctx.floor(rule, PQF, n_push, 1, 'heappush sites on p_queue'):
         return
     if not ctx.floor(rule, PQF, n_pop, 1, 'heappop sites on p_queue'):
         return
